@@ -101,8 +101,8 @@ func successReturnsP(p *eng.Program, info *types.Info, fd *ast.FuncDecl) []*ast.
 		}
 		switch x := last.(type) {
 		case *ast.Ident:
-			if v, isVar := info.Uses[x].(*types.Var); isVar && eng.IsErrorType(v.Type()) && !eng.KnownNonNilAt(info, fd.Body, r, v) {
-				out = append(out, r)
+			if v, isVar := info.Uses[x].(*types.Var); isVar && eng.IsErrorType(v.Type()) && v.Parent() != v.Pkg().Scope() && !eng.KnownNonNilAt(info, fd.Body, r, v) {
+				out = append(out, r) // (package-level error variables are sentinels: never a success)
 			}
 		case *ast.CallExpr:
 			// `return f(...)`: success depends on f; counts as a possible success exit
